@@ -49,6 +49,19 @@ def run_c14(F, R):
             R.ob('S1', name, len(cells) == 1 and cells[0].name in m.params and not kids, 'one parameter field, never written', v.file)
         elif spec[0] == 'echo':
             R.ob('S1', name, len(cells) == 1 and not kids and cells[0].role == 'cell', 'one cache cell', v.file)
+        # ---- S5 the parameter the operator is applied with is the constructor's argument itself
+        if spec[0] in ('clip', 'constant'):
+            for mm in m.ctor_models:
+                if mm['init'] is None:
+                    R.violation('S5', '%s::%s' % (name, mm['fn'].name), 'constructor result is not a plain struct expression: parameter cannot be traced')
+                    continue
+                for p_ in m.params:
+                    t = mm['init'].get(p_)
+                    ok5 = isinstance(t, tuple) and t and t[0] == 'arg'
+                    R.ob('S5', '%s::%s:%s' % (name, mm['fn'].name, p_), ok5,
+                         'parameter `%s` is stored exactly as passed (%s)' % (p_, tstr(t)) if ok5 else
+                         'parameter `%s` is stored as %s, not as the argument itself: the operator is applied with a different constant' % (p_, tstr(t)[:80] if t else '?'),
+                         mm['fn'].file)
         # ---- value of last() right after update()
         val = m.last_after_update()
         try:
